@@ -38,7 +38,11 @@ type c15Case struct {
 	Stacking string `json:"stacking"`
 	At       int    `json:"at"`
 	Phase    string `json:"phase"`
+	Dwell    bool   `json:"dwell"`
 }
+
+// c15Dwell: how long a dwelling peer sits out an idle wait - longer than the read-header limit, shorter than the idle limit.
+const c15Dwell = (c15Head + c15Idle) / 2
 
 type c15Env struct {
 	fwds   map[string]*fwd
@@ -97,7 +101,21 @@ var c15Partial = map[string][]byte{
 	"head": []byte("GET http://origin.test/stall HTTP/1.1\r\nHost: orig"),
 }
 
+// writeHead sends a request head; a dwelling peer sends it in two pieces so that it cannot be parsed from one read.
+func (w *walker) writeHead(b []byte, split bool) {
+	if split {
+		w.conn.Write(b[:7])
+		time.Sleep(40 * time.Millisecond)
+		b = b[7:]
+	}
+	w.conn.Write(b)
+}
+
 func (env *c15Env) walk(st string, upTo int, partial bool, path string, slowOrigin time.Duration) *walker {
+	return env.walkD(st, upTo, partial, path, slowOrigin, false)
+}
+
+func (env *c15Env) walkD(st string, upTo int, partial bool, path string, slowOrigin time.Duration, dwell bool) *walker {
 	f := env.fwds[st]
 	c, err := net.DialTimeout("tcp", f.addr, 5*time.Second)
 	w := &walker{conn: c, err: err, last: time.Now()}
@@ -147,10 +165,13 @@ func (env *c15Env) walk(st string, upTo int, partial bool, path string, slowOrig
 			w.br = bufio.NewReader(tc)
 		case "idle":
 			// nothing to send: the next phase's first byte ends the idle wait
+			if dwell {
+				time.Sleep(c15Dwell)
+			}
 		case "head":
 			switch {
 			case st == "mitm" && !inner:
-				w.conn.Write([]byte("CONNECT origin.test:443 HTTP/1.1\r\nHost: origin.test:443\r\n\r\n"))
+				w.writeHead([]byte("CONNECT origin.test:443 HTTP/1.1\r\nHost: origin.test:443\r\n\r\n"), dwell)
 				w.conn.SetReadDeadline(time.Now().Add(5 * time.Second))
 				r, err := readWireResponse(w.br, "CONNECT")
 				w.conn.SetReadDeadline(time.Time{})
@@ -159,9 +180,9 @@ func (env *c15Env) walk(st string, upTo int, partial bool, path string, slowOrig
 					return w
 				}
 			case inner:
-				w.conn.Write([]byte("GET " + path + " HTTP/1.1\r\nHost: origin.test\r\n\r\n"))
+				w.writeHead([]byte("GET "+path+" HTTP/1.1\r\nHost: origin.test\r\n\r\n"), dwell)
 			default:
-				w.conn.Write([]byte("GET http://origin.test" + path + " HTTP/1.1\r\nHost: origin.test\r\n\r\n"))
+				w.writeHead([]byte("GET http://origin.test"+path+" HTTP/1.1\r\nHost: origin.test\r\n\r\n"), dwell)
 			}
 		case "rt":
 			w.conn.SetReadDeadline(time.Now().Add(5*time.Second + slowOrigin))
@@ -206,7 +227,7 @@ func c15Run(e *env) {
 		if err := json.Unmarshal(raw, &c); err != nil {
 			fatal("bad case: %v", err)
 		}
-		k := fmt.Sprintf("%s/%d", c.Stacking, c.At)
+		k := fmt.Sprintf("%s/%d/%v", c.Stacking, c.At, c.Dwell)
 		if !seen[k] {
 			seen[k] = true
 			cases = append(cases, c)
@@ -222,6 +243,9 @@ func c15Run(e *env) {
 			}
 			if !partial && c.Phase == "mitm" {
 				continue // before the first byte no handshake has begun and no limit is defined (DESIGN.md C15)
+			}
+			if !partial && c.Phase == "head" && c.Dwell {
+				continue // without a first byte the peer is still in the idle wait it has already partly sat out
 			}
 			c, partial, id := c, partial, n
 			n++
@@ -243,13 +267,14 @@ func c15Run(e *env) {
 			defer wg.Done()
 			defer func() { <-sem }()
 			e.emit(env.slowOrigin(st))
+			e.emit(env.patient(st))
 		}()
 	}
 	wg.Wait()
 }
 
 func (env *c15Env) stallCase(id int, c c15Case, partial bool) map[string]any {
-	res := map[string]any{"ok": true, "stacking": c.Stacking, "at": c.At, "phase": c.Phase, "partial": partial, "kind": "stall"}
+	res := map[string]any{"ok": true, "stacking": c.Stacking, "at": c.At, "phase": c.Phase, "partial": partial, "kind": "stall", "dwell": c.Dwell}
 	fail := func(why string) {
 		if res["ok"] == true {
 			res["ok"], res["why"] = false, why
@@ -257,14 +282,30 @@ func (env *c15Env) stallCase(id int, c c15Case, partial bool) map[string]any {
 	}
 	limit := c15Limits[c.Phase]
 	const K = 3
+	type closeObs struct {
+		at     time.Time
+		closed bool
+	}
 	var ws []*walker
+	var obs []chan closeObs
 	for k := 0; k < K; k++ {
-		w := env.walk(c.Stacking, c.At, partial, fmt.Sprintf("/stall%d-%d", id, k), 0)
+		w := env.walkD(c.Stacking, c.At, partial, fmt.Sprintf("/stall%d-%d", id, k), 0, c.Dwell)
 		if w.err != nil {
-			fail("stalling peer could not reach its phase: " + w.err.Error())
+			if c.Dwell {
+				fail("peer that let no limit elapse was closed before its limit on the way to its phase: " + w.err.Error())
+			} else {
+				fail("stalling peer could not reach its phase: " + w.err.Error())
+			}
 			return res
 		}
 		ws = append(ws, w)
+		// every peer is watched from the moment it stalls, so its close is timed when it happens
+		ch := make(chan closeObs, 1)
+		obs = append(obs, ch)
+		go func() {
+			at, closed := w.waitClosed(limit + 4*time.Second)
+			ch <- closeObs{at, closed}
+		}()
 	}
 	// a well-behaved client connects while they stall
 	t0 := time.Now()
@@ -280,8 +321,9 @@ func (env *c15Env) stallCase(id int, c c15Case, partial bool) map[string]any {
 		pw.conn.Close()
 	}
 	var after []int64
-	for _, w := range ws {
-		at, closed := w.waitClosed(limit + 4*time.Second)
+	for i, w := range ws {
+		o := <-obs[i]
+		at, closed := o.at, o.closed
 		d := at.Sub(w.last)
 		after = append(after, d.Milliseconds())
 		switch {
@@ -295,6 +337,20 @@ func (env *c15Env) stallCase(id int, c c15Case, partial bool) map[string]any {
 		w.conn.Close()
 	}
 	res["closed_after_ms"], res["limit_ms"] = after, limit.Milliseconds()
+	return res
+}
+
+// patient: a client that sits out every idle wait for longer than the read-header limit (never the idle limit) and sends
+// its heads in two pieces lets no limit elapse: it is served, twice on the same connection.
+func (env *c15Env) patient(st string) map[string]any {
+	res := map[string]any{"ok": true, "stacking": st, "kind": "patient", "phase": "head", "dwell": true}
+	w := env.walkD(st, len(c15Phases[st]), false, "/patient-"+st, 0, true)
+	if w.err != nil {
+		res["ok"], res["why"] = false, "client closed before its limit although no limit had elapsed (idle wait shorter than idle-timeout, head sent at once in two pieces): "+w.err.Error()
+	}
+	if w.conn != nil {
+		w.conn.Close()
+	}
 	return res
 }
 
